@@ -221,4 +221,219 @@ theorem C12_retention_expiry_key (n m : Nat) (hn : n < 2 ^ 63) (hm : 0 < m) (hm2
     rw [Nat.mod_eq_of_lt this]
     omega
 
+
+/-! ## round ids advance by exactly one per interval (induction over blocks) -/
+
+/-- **No gaps, no repeats, every round closes exactly once.** For a feeder without end block, with
+`1 ≤ MaxNonce < Interval` (params.Validate demands `Interval ≥ 2·MaxNonce`), started with stored
+NextRoundID `n0`: after *every* block `b = StartBaseBlock + k`, for *every* history of the
+intervening blocks — whatever transactions finalized the round in whatever block of the window,
+and whichever EndBlocks were forced seals (validator-set changes) — the feeder's in-memory round is
+the one of base `b − (b−start) mod interval` with id `StartRoundID + (b−start) div interval`, it is
+open only inside its window, and the stored NextRoundID is exactly
+`n0 + (b−start) div interval + [that round is closed]`: one id per elapsed round, none skipped,
+none written twice. -/
+theorem C12_round_ids_consecutive (f : Feeder) (mn n0 : Nat) (hmn : 1 ≤ mn) (hiv : mn < f.interval)
+    (evs : List BlockEv) :
+    RoundInv f mn n0 (f.startBaseBlock + evs.length)
+      (slRun f mn f.startBaseBlock evs (slPrepare f mn f.startBaseBlock { round := none, next := n0 })) :=
+  run_inv f mn n0 hiv hmn evs f.startBaseBlock _ (Nat.le_refl _) (start_inv f mn n0 hmn)
+
+/-- Spelled out at round boundaries: when block `b` opens a new round (offset 0), every earlier
+round has been closed exactly once — the round is open, and the stored id equals `n0 +` the number
+of elapsed rounds; it coincides with the new round's own id when genesis was aligned
+(`n0 = StartRoundID`), so the final price of the new round will be accepted by AppendPriceTR. -/
+theorem C12_round_closes_exactly_once (f : Feeder) (mn n0 : Nat) (hmn : 1 ≤ mn) (hiv : mn < f.interval)
+    (evs : List BlockEv) (hb : (evs.length) % f.interval = 0) :
+    ∃ r, (slRun f mn f.startBaseBlock evs (slPrepare f mn f.startBaseBlock { round := none, next := n0 })).round = some r ∧
+      r.status = .open ∧ r.basedBlock = f.startBaseBlock + evs.length ∧
+      r.nextRoundID = f.startRoundID + evs.length / f.interval ∧
+      (slRun f mn f.startBaseBlock evs (slPrepare f mn f.startBaseBlock { round := none, next := n0 })).next =
+        n0 + evs.length / f.interval := by
+  have h := C12_round_ids_consecutive f mn n0 hmn hiv evs
+  have e : f.startBaseBlock + evs.length - f.startBaseBlock = evs.length := by omega
+  obtain ⟨r, hr, hbase, hn, _, hx⟩ := h
+  rw [e] at hbase hn hx
+  rw [hb] at hbase
+  have hst : r.status = .open := by
+    cases evs with
+    | nil =>
+      obtain ⟨r', hr', hs'⟩ := prepare_open_at_zero f mn f.startBaseBlock { round := none, next := n0 } hmn (Nat.le_refl _) (by simp)
+      simp only [slRun] at hr
+      rw [hr'] at hr; cases hr; exact hs'
+    | cons ev t =>
+      obtain ⟨x, hx'⟩ := run_ends_with_prepare f mn t ev f.startBaseBlock (slPrepare f mn f.startBaseBlock { round := none, next := n0 })
+      obtain ⟨r', hr', hs'⟩ := prepare_open_at_zero f mn (f.startBaseBlock + (ev :: t).length) x hmn (by omega) (by rw [e]; exact hb)
+      rw [hx', hr'] at hr; cases hr; exact hs'
+  have hne : ¬ (Status.open = Status.closed) := by intro h'; cases h'
+  refine ⟨r, hr, hst, by omega, hn, ?_⟩
+  rw [hx, hst]; simp [hne]
+
+example : RoundInv { tokenID := 1, ruleID := 1, startRoundID := 2, startBaseBlock := 2, interval := 7, endBlock := 0 } 3 2 4
+    (slRun { tokenID := 1, ruleID := 1, startRoundID := 2, startBaseBlock := 2, interval := 7, endBlock := 0 } 3 2
+      [{ final := true, force := false }, { final := false, force := true }]
+      (slPrepare { tokenID := 1, ruleID := 1, startRoundID := 2, startBaseBlock := 2, interval := 7, endBlock := 0 } 3 2 { round := none, next := 2 })) :=
+  C12_round_ids_consecutive _ 3 2 (by decide) (by decide) _
+
+/-! ### the model's per-feeder functions act on the feeder's round exactly as the slice does -/
+
+theorem C12_prepare_refines_slice (p : Params) (block : Nat) (g : Agc) (fid : Nat) (f : Feeder) (n : Nat)
+    (hend : f.endBlock = 0) :
+    alookup fid (prepareOne p block g fid f).1.rounds =
+      (slPrepare f p.maxNonce block { round := alookup fid g.rounds, next := n }).round ∧
+    ∀ fid', fid' ≠ fid → alookup fid' (prepareOne p block g fid f).1.rounds = alookup fid' g.rounds := by
+  unfold prepareOne slPrepare
+  simp only [hend, Nat.lt_irrefl, decide_false, Bool.false_and, Bool.false_or, decide_eq_true_eq]
+  by_cases hs : f.startBaseBlock > block
+  · simp [hs]
+  · simp only [hs, if_false]
+    cases hr : alookup fid g.rounds with
+    | none =>
+      simp only
+      by_cases hl : (roundArith f block).1 ≥ p.maxNonce
+      · simp only [hl, if_true]
+        exact ⟨alookup_aset_same _ _ _, fun fid' h => alookup_aset_other _ _ _ _ h⟩
+      · simp only [hl, if_false]
+        exact ⟨alookup_aset_same _ _ _, fun fid' h => alookup_aset_other _ _ _ _ h⟩
+    | some r =>
+      simp only
+      by_cases hl0 : (roundArith f block).1 = 0
+      · simp only [hl0, if_true]
+        exact ⟨alookup_aset_same _ _ _, fun fid' h => alookup_aset_other _ _ _ _ h⟩
+      · simp only [hl0, if_false]
+        by_cases hc : (decide (r.status = Status.open) && decide ((roundArith f block).1 ≥ p.maxNonce)) = true
+        · simp only [hc, if_true]
+          exact ⟨alookup_aset_same _ _ _, fun fid' h => alookup_aset_other _ _ _ _ h⟩
+        · simp only [hc, if_false]
+          exact ⟨hr, fun _ _ => rfl⟩
+
+
+/-- context.go SealRound for one feeder (without EndBlock): its round entry changes as in the slice,
+other feeders' entries are untouched, and a token id is reported as failed (⇒ GrowRoundID ⇒ the
+stored id advances by one) exactly when the slice's counter advances. -/
+theorem C12_seal_refines_slice (p : Params) (h : Nat) (force : Bool) (g : Agc) (fid : Nat) (f : Feeder) (n : Nat)
+    (hf : p.feeder? fid = some f) (hend : f.endBlock = 0) :
+    alookup fid (sealOne p h force g fid).1.rounds =
+      (slSeal p.maxNonce h force { round := alookup fid g.rounds, next := n }).round ∧
+    (slSeal p.maxNonce h force { round := alookup fid g.rounds, next := n }).next =
+      n + (if (sealOne p h force g fid).2.1.isSome then 1 else 0) ∧
+    ((sealOne p h force g fid).2.1 = none ∨ (sealOne p h force g fid).2.1 = some f.tokenID) ∧
+    ∀ fid', fid' ≠ fid → alookup fid' (sealOne p h force g fid).1.rounds = alookup fid' g.rounds := by
+  unfold sealOne slSeal
+  cases hr : alookup fid g.rounds with
+  | none => simp [hr]
+  | some r =>
+    simp only [hf, Option.getD_some, hend, Nat.lt_irrefl, decide_false, Bool.false_and, Bool.false_or]
+    rcases status_cases r.status with hs | hs
+    · by_cases hc : (decide (h - r.basedBlock ≥ p.maxNonce) || force) = true
+      · simp only [hs, hc, if_true, decide_true, Bool.and_self, Bool.false_eq_true, if_false]
+        cases hw : alookup fid (adel fid g.workers) with
+        | none =>
+          simp only [Option.isSome_some, if_true]
+          exact ⟨alookup_aset_same _ _ _, trivial, Or.inr trivial, fun fid' hne => alookup_aset_other _ _ _ _ hne⟩
+        | some w =>
+          by_cases hsd : w.sealed = true
+          · simp only [hsd, if_true, Option.isSome_some]
+            exact ⟨alookup_aset_same _ _ _, trivial, Or.inr trivial, fun fid' hne => alookup_aset_other _ _ _ _ hne⟩
+          · simp only [hsd, Bool.false_eq_true, if_false, Option.isSome_some, if_true]
+            exact ⟨alookup_aset_same _ _ _, trivial, Or.inr trivial, fun fid' hne => alookup_aset_other _ _ _ _ hne⟩
+      · have hc' : (decide (h - r.basedBlock ≥ p.maxNonce) || force) = false := by simpa using hc
+        simp only [hs, hc', if_true, decide_true, Bool.and_false, Bool.false_eq_true, if_false]
+        cases hw : alookup fid g.workers with
+        | none => simp [hr]
+        | some w => by_cases hsd : w.sealed = true <;> simp [hsd, hr]
+    · have hno : ¬ (Status.closed = Status.open) := by intro h'; cases h'
+      simp only [hs, hno, if_false, decide_false, Bool.false_and, Bool.false_eq_true]
+      cases hw : alookup fid g.workers with
+      | none => simp [hr]
+      | some w => by_cases hsd : w.sealed = true <;> simp [hsd, hr]
+
+
+/-! ## the full statement fails on the code as it is (F-09c) -/
+
+def wParams : Params :=
+  { maxNonce := 3, thA := 2, thB := 3, maxDetID := 5, maxSizePrices := 100,
+    sources := [{ valid := false, det := false }, { valid := true, det := true }],
+    rules := [[], [1]], tokenDecimals := [0, 0],
+    feeders := [default, { tokenID := 1, ruleID := 1, startRoundID := 2, startBaseBlock := 2, interval := 7, endBlock := 0 }] }
+
+def wAgc : Agc :=
+  { params := some wParams, vals := [(0, 1)], total := 1,
+    rounds := [(1, { basedBlock := 2, nextRoundID := 2, status := .open })], workers := [] }
+
+def wState : State :=
+  { store := { prices := [(1, { next := 2, rounds := [(1, { price := some 1, decimal := 0, ts := -1, roundID := 1 })] })],
+               nonces := [((0, 1), 0)], recentMsgs := [], msgIndex := [], recentParams := [], paramsIndex := [],
+               vuBlock := none, params := wParams },
+    agc := some wAgc, cache := some Cache.empty, dogfood := [(0, 1)], height := 3, blockTime := 100 }
+
+def wMsg (n : Int) : Msg :=
+  { creator := 0, feederID := 1, basedBlock := 2, nonce := n,
+    prices := [{ sourceID := 1, prices := [{ price := 2, decimal := 0, ts := 100, tsKind := 0, detID := "9" }] }] }
+
+def wTx : Tx := { size := 300, pubkeyMatches := true, sigValid := true, msgs := [wMsg 1, wMsg 2] }
+
+theorem w_out : (deliverTx wState wTx).2 = .msg 1 (.invalidMsg "round") := by decide
+theorem w_next : ((deliverTx wState wTx).1.store.token 1).nextRoundID = 2 := by decide
+theorem w_round : ((deliverTx wState wTx).1.agc.bind (fun g => alookup 1 g.rounds)).map (·.status) = some .closed := by decide
+/-- "Every round closes exactly once — with a price or by carrying the previous one forward":
+whenever a delivered transaction closes a feeder's open round in memory, the stored round id of
+the feeder's token has advanced by one. -/
+def C12_full : Prop :=
+  ∀ (s : State) (tx : Tx) (fid : Nat) (g g' : Agc) (p : Params) (f : Feeder) (r r' : Round),
+    s.agc = some g → g.params = some p → p.feeder? fid = some f →
+    alookup fid g.rounds = some r → r.status = .open →
+    (deliverTx s tx).1.agc = some g' → alookup fid g'.rounds = some r' → r'.status = .closed →
+    ((deliverTx s tx).1.store.token f.tokenID).nextRoundID = (s.store.token f.tokenID).nextRoundID + 1
+
+theorem C12_full_fails : ¬ C12_full := by
+  intro h
+  cases hg : (deliverTx wState wTx).1.agc with
+  | none =>
+    have : (deliverTx wState wTx).1.agc.isSome = true := by decide
+    simp [hg] at this
+  | some g' =>
+    have hr := w_round
+    rw [hg] at hr
+    simp only [Option.bind_some] at hr
+    cases hr' : alookup 1 g'.rounds with
+    | none => simp [hr'] at hr
+    | some r' =>
+      simp only [hr', Option.map_some, Option.some.injEq] at hr
+      have := h wState wTx 1 wAgc g' wParams
+        { tokenID := 1, ruleID := 1, startRoundID := 2, startBaseBlock := 2, interval := 7, endBlock := 0 }
+        { basedBlock := 2, nextRoundID := 2, status := .open } r' rfl rfl (by decide) (by decide) rfl hg hr' hr
+      rw [w_next] at this
+      revert this
+      decide
+
+
+/-- What does hold: a *single* create-price message that finalizes its round records the round —
+the stored id of the token advances by one (by AppendPriceTR, or by GrowRoundID when the ids are
+misaligned), provided the latest stored record sits under its own id. So `C12_full` holds for
+transactions carrying one message; the failure needs a later message of the same tx to fail. -/
+theorem C12_single_message_final_recorded_partial (s : State) (m : Msg) (g g' : Agc) (p : Params) (it : FinalItem)
+    (hg : s.agc = some g) (hp : g.params = some p) (hts : checkTimestamp s.blockTime m = true)
+    (hck : g.checkMsg p m = none) (hfill : g.fillPrice p m = (g', .final it))
+    (hwf : ∀ q, (s.store.token it.tokenID).latest = some q → q.roundID + 1 = (s.store.token it.tokenID).nextRoundID) :
+    (createPrice s m).2 = .ok ∧
+    ((createPrice s m).1.store.token it.tokenID).nextRoundID = (s.store.token it.tokenID).nextRoundID + 1 := by
+  unfold createPrice
+  simp only [hts, Bool.not_true, Bool.false_eq_true, if_false, getAgc, hg, hp, hck, hfill]
+  refine ⟨trivial, ?_⟩
+  have htok : ∀ (st : Store) (tok : Nat) (t : TokenStore) (fid : Nat) (vs : List Nat),
+      ((st.setToken tok t).removeNonces fid vs).token tok = t := by
+    intro st tok t fid vs
+    simp [Store.token, Store.removeNonces, Store.setToken, alookup_aset_same]
+  simp only [htok]
+  by_cases hok : ((s.store.token it.tokenID).append p.maxSizePrices
+      { price := some it.price, decimal := it.decimal, ts := it.ts, roundID := it.roundID }).2 = true
+  · simp only [hok, if_true]
+    have := append_next (s.store.token it.tokenID) p.maxSizePrices
+      { price := some it.price, decimal := it.decimal, ts := it.ts, roundID := it.roundID }
+    simp [hok] at this; exact this
+  · simp only [hok, Bool.false_eq_true, if_false]
+    exact C12_grow_advances_by_one _ _ hwf
+
+
 end ExoVerif.Oracle
